@@ -151,6 +151,14 @@ func (ex *Exec) callFunc(st *State, frID int, instr ssa.Instruction, fn *ssa.Fun
 			return
 		}
 	}
+	if fn.Parent() != nil {
+		// function literals are inlined at their call sites (their contracts, if any, are verified
+		// on the literal itself and never used as a cut)
+		if fn.Blocks != nil && ex.depth < maxInlineDepth {
+			ex.inline(st, frID, instr, fn, bind, args, k)
+			return
+		}
+	}
 	if fc := ex.ctx.specs.Funcs[key]; fc != nil && !(fn == ex.fn && ex.depth == 0) {
 		ex.applyContract(st, frID, instr, fc, fn.Signature, args, k)
 		return
@@ -158,6 +166,13 @@ func (ex *Exec) callFunc(st *State, frID int, instr ssa.Instruction, fn *ssa.Fun
 		// recursive call: use the contract
 		ex.applyContract(st, frID, instr, fc, fn.Signature, args, k)
 		return
+	}
+	for _, p := range ex.ctx.specs.Pure {
+		if matchPattern(p, name) || matchPattern(p, key) {
+			ex.externs[key+" (assumed pure, result unconstrained)"] = true
+			k(st, ex.freshResults(st, fn.Signature.Results(), "ext"))
+			return
+		}
 	}
 	if fn.Blocks != nil && (isRepoFunc(fn) || fn.Synthetic != "" || fn.Parent() != nil) {
 		if ex.depth >= maxInlineDepth {
